@@ -13,9 +13,25 @@
      H_geos_intersection     shapely returns the vertices of (extent /\ Earth disk polygon) *)
 From Coq Require Import Reals ZArith List Lia Bool.
 From PR Require Import Base.Num Base.RNum Base.F64 Model.Boundary
-     Proofs.C16_idx Proofs.C16_ring Proofs.C16_f64 Proofs.C16_geos.
+     Gen.GenC16 Proofs.C16_idx Proofs.C16_ring Proofs.C16_f64 Proofs.C16_geos Proofs.C16_gen.
 Import ListNotations.
 Open Scope Z_scope.
+
+(* the tie to the source: the Gallina definition regenerated from BaseDefinition._get_bbox_slices of /repo on every run
+   (Gen/GenC16.v; vertices_per_side an int, resp. None), with Python's negative indices resolved, IS the side model,
+   over any arithmetic (so both over the reals, where the theorems below live, and over binary64) *)
+Theorem C16_generated_slices_are_model : forall (T : Type) (OP : ops T) h w,
+  (forall v, resolve_slices h w (gen_bbox_slices_some OP (mk_geom (h, w)) v)
+             = bbox_sides (linspace_idx OP) (linspace_idx_desc OP) h w (Some v))
+  /\ resolve_slices h w (gen_bbox_slices_none OP (mk_geom (h, w)) tt)
+     = bbox_sides (linspace_idx OP) (linspace_idx_desc OP) h w None.
+Proof.
+  intros T OP h w. split; [intros v; apply gen_bbox_slices_some_is_model|apply gen_bbox_slices_none_is_model].
+Qed.
+Print Assumptions C16_generated_slices_are_model.
+Example C16_generated_ex : resolve_slices 4 3 (gen_bbox_slices_some F64 (mk_geom (4, 3)) 6) =
+  [[(0, 0); (0, 1); (0, 2)]; [(0, 2); (1, 2); (2, 2); (3, 2)]; [(3, 2); (3, 1); (3, 0)]; [(3, 0); (2, 0); (1, 0); (0, 0)]].
+Proof. vm_compute. reflexivity. Qed.
 
 (* np.linspace(0, n-1, m, dtype=int) in exact arithmetic is entry i -> floor(i (n-1) / (m-1)); the descending
    table np.linspace(n-1, 0, m, dtype=int) is its reversal *)
